@@ -51,7 +51,7 @@ def run(chk):
                     "distinct_nontrivial": len({json.dumps(s["gens"], sort_keys=True) for s in scripts}),
                     "rule": "six fault stories + seeded histories with 2-3 client connections, 1-3 key sets, pauses around the 30 ms tick flush, a 2-4 chunk memory window (forced spills), resets / silent / late upstream connections (retransmissions) and 1-3 generations; the observer checks per (generation, connection, key) that first deliveries are in sent order and per upstream connection that no older un-ACKed chunk of a pipeline is skipped",
                     "samples": [scripts[6]]})
-    chk.assumptions += ["chunk creation order = order of the chunk ids (checked for the packer by C11); the wall clock does not step backwards",
+    chk.assumptions += ["chunk creation order = order of the chunk ids (checked by C11 for every scripted behaviour of the wall clock, ChunkId.tla)",
                         "a rejection is a violation only if the same history is rejected again on a re-run"]
 
 
